@@ -62,7 +62,7 @@ add("C14", "model_checking", "vh",
 
 add("C19", "model_checking", "vh",
     "explicit-state search over add/undo histories of the real incremental Serializer against a hole-filling tree model",
-    "Breadth-first search over histories of Add(fragment, fresh|re-used NodePtr) and Undo(to any saved state) events on the real Serializer, each history replayed on a fresh object: after every undo the bytes/size must equal those recorded before the undone add; add must report completion exactly when the assembled tree has no unfilled sentinel; completed bytes must decode (new, legacy and reference decoder) to the tree assembled by filling sentinel positions in serialization order; byte traces must not depend on the hashing salts (hook H3). Space A (upstream usage: sentinel in tail position) is explored to 4|5 adds / 2 undos / 6|7 events; spaces N, B, C (sentinel in any position, repeated sentinels, re-used non-tail fragments) to 3-4 adds.",
+    "Breadth-first search over histories of Add(fragment, fresh|re-used NodePtr) and Undo(to any saved state) events on the real Serializer, each history replayed on a fresh object: after every undo the bytes/size must equal those recorded before the undone add; add must report completion exactly when the assembled tree has no unfilled sentinel; completed bytes must decode (new, legacy and reference decoder) to the tree assembled by filling sentinel positions in serialization order; byte traces must not depend on the hashing salts (hook H3). Space A (upstream usage: sentinel in tail position) is explored to 4|5 adds / 2 undos / 5|7 events; spaces N, B, C (sentinel in any position, repeated sentinels, re-used non-tail fragments) to 3-4 adds.",
     "Three known findings (exact witness history lists) concern fragments with content after their sentinel; space A is clean. Fragments outside the 15-fragment alphabet and longer histories are not covered.")
 
 add("C01", "model_checking", "vh",
